@@ -29,7 +29,9 @@ def session(rng, nnodes, nmsgs):
             relay[i] = True
             ops.append(f"{names[i]} set multicast_relay T")
     for _ in range(nmsgs):
-        s = rng.randrange(len(tree))
+        s = rng.choice([i for i in range(len(tree)) if allow[i] and not relay[i]] or [0])
+        if relay[s] or not allow[s]:
+            continue
         lvl = rng.choice(["N", 0, 1, 2, 3, 4])
         n = rng.choice([0, 1, 10, 24, 24, 25, 60, 144])
         ops.append(f"{names[s]} multicast {rbytes(rng, n)} {rng.randint(0, 127)} {lvl}")
@@ -83,11 +85,15 @@ class C14(PropCheck):
                         continue
                     seen_levels.add(L)
                     for n, a in addr.items():
-                        if n != origin and level_of(a) == L and allow[n] and not (n == s):
+                        if n != origin and n != s and level_of(a) == L and allow[n]:
                             expect[n] = expect.get(n, 0) + 1
                             if relay[n] and 1 <= L <= 3:
                                 frontier.append((L + 1, n))
                 for n in addr:
+                    if n == s:
+                        continue   # the sender itself: a relayed copy may or may not come back to it (half duplex)
+                    if level_of(addr[n]) == 0 and not allow[n]:
+                        continue   # the master's private pipe-0 address *is* the level-0 address (addressing scheme)
                     real = [f for f in got.get(n, []) if f != "N"]
                     want = 1 if n in expect else 0
                     if len(real) != want:
